@@ -3,11 +3,13 @@
 package env
 
 import (
+	"encoding/json"
 	"fmt"
 	"io/ioutil"
 	"math"
 	"math/big"
 	"os"
+	"path/filepath"
 	"time"
 
 	"com.tuntun.rangers/node/src/common"
@@ -208,3 +210,54 @@ func Header(height uint64, castor []byte, t time.Time) *types.BlockHeader {
 		ProveValue: big.NewInt(1), Transactions: make([]common.Hashes, 0), EvictedTxs: make([]common.Hash, 0),
 		RequestIds: map[string]uint64{}}
 }
+
+// Dev-genesis constants used by several drivers.
+const (
+	DevProposerID = "0x7f88b4f2d36a83640ce5d782a0a20cc2b233de3df2d8a358bf0e7b29e9586a12"
+)
+
+// RichAccounts hold 10^9 tokens each in the dev genesis state.
+var RichAccounts = []string{
+	"0x2f4f09b722a6e5b77be17c9a99c785fa7035a09f",
+	"0x42c8c9b13fc0573d18028b3398a887c4297ff646",
+	"0x8744c51069589296fcb7faa2f891b1f513a0310c",
+	"0x25716527aad0ae1dd24bd247af9232dae78595b0",
+}
+
+// TransferTx builds an (unsigned) operator transfer transaction; block
+// verification does not check transaction signatures (admission does, C07).
+func TransferTx(source string, targets map[string]string, nonce uint64, tag string) *types.Transaction {
+	m := map[string]types.TransferData{}
+	for a, v := range targets {
+		m[a] = types.TransferData{Balance: v}
+	}
+	b, _ := jsonMarshal(m)
+	tx := &types.Transaction{Source: source, Type: types.TransactionTypeOperatorEvent, Time: tag,
+		ExtraData: string(b), Nonce: nonce, ChainId: common.ChainId(1)}
+	tx.Hash = tx.GenHash()
+	return tx
+}
+
+// CopyDir copies a directory tree (used to clone a dead node's stores).
+func CopyDir(src, dst string) error {
+	return filepath.Walk(src, func(p string, info os.FileInfo, err error) error {
+		if err != nil {
+			return err
+		}
+		rel, _ := filepath.Rel(src, p)
+		t := filepath.Join(dst, rel)
+		if info.IsDir() {
+			return os.MkdirAll(t, 0755)
+		}
+		if !info.Mode().IsRegular() {
+			return nil
+		}
+		b, err := ioutil.ReadFile(p)
+		if err != nil {
+			return err
+		}
+		return ioutil.WriteFile(t, b, 0644)
+	})
+}
+
+func jsonMarshal(v interface{}) ([]byte, error) { return json.Marshal(v) }
